@@ -9,9 +9,11 @@ def gen_streams(wd, tier, seed, name="gen"):
     out = os.path.join(wd, name + ".ndjson")
     per_worker = 40 if tier == "quick" else 400
     parts = []
-    for i, (repzero, n) in enumerate([("FALSE", per_worker), ("TRUE", max(10, per_worker // 4))]):
+    batches = [("FALSE", "mixed", per_worker), ("TRUE", "mixed", max(10, per_worker // 4)),
+               ("FALSE", "far", max(15, per_worker // 3))]
+    for i, (repzero, mode, n) in enumerate(batches):
         p = os.path.join(wd, "%s_%d.ndjson" % (name, i))
-        generate("Gen_Deflate", wd, p, constants={"MaxTok": 30, "MaxBlk": 3, "RepZero": repzero},
+        generate("Gen_Deflate", wd, p, constants={"MaxTok": 30, "MaxBlk": 3, "RepZero": repzero, "Mode": '"%s"' % mode},
                  invariants=["Replay"], simulate="num=%d" % n, seed=seed * 10 + i, workers=6, timeout=3000)
         parts.append(p)
     with open(out, "w") as o:
